@@ -2,6 +2,7 @@ import PromqlVerif.Proto
 import PromqlVerif.Eng
 import PromqlVerif.Iter
 import PromqlVerif.Table
+import PromqlVerif.Acc
 open PromqlVerif
 
 structure DState where
@@ -122,6 +123,28 @@ def tableView (args : List String) : String :=
     r.getD "bad-op"
   | _ => "bad-op"
 
+/-- `kernel acc <op> <arg/v,v,..>#...`: one accumulator reused over the steps, against the
+per-step reduction -/
+def accView (args : List String) : String :=
+  match args with
+  | [op, steps] =>
+    let r : Option String := do
+      let op ← decS op
+      let steps ← (steps.splitOn "#").mapM fun st =>
+        match st.splitOn "/" with
+        | [a, vs] => do
+          let a ← parseBits a
+          let vs ← (if vs.isEmpty then some [] else (vs.splitOn ",").mapM parseBits)
+          some (a, vs)
+        | _ => none
+      let sh := fun (o : Option Float) => match o with | none => "-" | some v => showBits v
+      let init : Acc Float := ⟨false, 0, 0, 0, 0, 0, []⟩
+      let reused := Acc.runs op init steps
+      let fresh := steps.map fun s => if s.2.isEmpty then none else some (engReduce op s.1 s.2)
+      some ("acc=" ++ String.intercalate "#" (reused.map sh) ++ " fresh=" ++ String.intercalate "#" (fresh.map sh))
+    r.getD "bad-op"
+  | _ => "bad-op"
+
 def stepLine (s : DState) (line : String) : DState × Option String :=
   let toks := (line.splitOn " ").filter (· != "")
   match toks with
@@ -151,6 +174,7 @@ def stepLine (s : DState) (line : String) : DState × Option String :=
       | some e => ({ s with query := some e }, none)
       | none => ({ s with bad := true }, none)
     | none => ({ s with bad := true }, none)
+  | "kernel" :: "acc" :: args => (s, some ("kernel " ++ accView args))
   | "kernel" :: "table" :: args => (s, some ("kernel " ++ tableView args))
   | "kernel" :: what :: args => (s, some ("kernel " ++ (if s.bad then "bad-op" else kernelView s what args)))
   | ["eval", view] => (s, some (view ++ " " ++ evalView s view))
